@@ -44,7 +44,7 @@ def r02_1(ctx):
 def r02_2(ctx):
     out = []
     for pub_path in ('raw_cache::insert_or_update', 'raw_cache::insert_or_touch'):
-        k = ctx.key_of(pub_path)
+        k = ctx.helper(pub_path)
         q = ctx.explore(k)
         pubs = q.prim_edges({'publish_replace', 'publish_excl'})
         if not pubs:
@@ -155,7 +155,7 @@ def r02_3(ctx):
 
 def r02_4(ctx):
     out = []
-    k = ctx.key_of('raw_cache::prune')
+    k = ctx.helper('raw_cache::prune')
     eff = ctx.cg.effects(k) & prims.MUTATING
     out.append(inst('R02.4', 'prune', eff <= {'ns_remove_file', 'meta_times'} and bool(eff), 'mutating effects of prune: %s' % sorted(eff)))
     tk = c17.temp_cleanup_key(ctx)
